@@ -6,6 +6,7 @@ open Lean SplinkVerif SplinkVerif.Score
 instance : Num Float where
   zero := 0.0
   one := 1.0
+  ofNat := fun n => n.toFloat
   add := (· + ·)
   sub := (· - ·)
   mul := (· * ·)
